@@ -355,6 +355,17 @@ func main() {
 		os.Exit(cmdReplay(os.Args[2]))
 	case "determinism":
 		os.Exit(cmdDeterminism(os.Args[2:]))
+	case "warm":
+		tmp, _ := os.MkdirTemp("", "verif-warm-")
+		defer os.RemoveAll(tmp)
+		for _, e := range []string{"world", "sched"} {
+			if _, err := build(e, tmp); err != nil {
+				fmt.Println(err)
+				os.Exit(exitUnwell)
+			}
+		}
+		fmt.Println("build cache warm")
+		return
 	case "list":
 		for _, id := range allProps() {
 			fmt.Println(id)
